@@ -385,7 +385,7 @@ pub fn run(ctx: &Ctx) -> Outcome {
         }
         return out;
     }
-    let modes = [UNIFORM, IDENTITY, CONSTANT, SAMEBIN, SPLITTING, MIXED, HIGHBITS];
+    let modes = ALL_MODES;
     // ---- A and B
     let n_ab = ctx.q(400u64, 40_000);
     for i in 0..n_ab {
